@@ -127,6 +127,7 @@ class Evaluator:
         self.enums = enums
         self.inline_depth = inline_depth
         self._summaries: dict[str, object] = {}
+        self._evaluating: set[str] = set()
         self._seq = 0
         self._closure_by_loc = {f.closure_loc: f for f in fns.values() if f.closure_loc}
 
@@ -647,7 +648,11 @@ class Evaluator:
                 elif self._inline_forking(fn, t, callee, raw_args, args, env, conds, events, visited, decided, stops, out, depth, entry, bb):
                     return None
             if val is None:
-                pure = name in PURE_LOCAL or name in PURE_STD
+                # a recursive call of the helper being evaluated in place: a function of its arguments (no `&mut` parameter, no
+                # globals in this crate), so it is an atom like the judgements it generalises
+                rec_pure = callee is not None and callee.short in self._evaluating \
+                    and not any(pty.startswith('&mut ') for _pn, pty in callee.params)
+                pure = name in PURE_LOCAL or name in PURE_STD or rec_pure
                 if pure:
                     val = ('call', name, args)
                     events.append(Event('call', name, args, val, bb, fn.short, extra='pure'))
@@ -713,10 +718,13 @@ class Evaluator:
         if key in self._summaries:
             return self._summaries[key]
         self._summaries[key] = None      # recursion guard
+        self._evaluating.add(callee.short)
         try:
             ps = self.paths(callee, depth=depth)
         except AnalysisError:
             return None
+        finally:
+            self._evaluating.discard(callee.short)
         if not ps or len(ps) > 64 or any(isinstance(p.end, tuple) for p in ps):
             return None
         self._summaries[key] = ps
